@@ -116,3 +116,31 @@ COMPONENT_VOCAB = {
     'path': ['../..', '../../a', '../../..', 'a/../../..', '../a/../..', '', '/', 'a', '/a', 'a/', 'a/.', 'a/./b', 'a/b', 'a/x/../b', '/a/../..', '/', '..', '../a', 'a/../..', '%61', '/%61/', '//a', '/./a', './a', 'b/%2e%2e', '/a/b/..', '/a/', '%FF', 'a//b', 'a/b/'],
     'authority': ['', 'h', '%68', 'u@h', '%75@h', 'u@h:', 'u@h:80', 'h:80', 'h:080', '[::1]:80', '@h', 'u:p@h', 'H'],
 }
+
+
+def two_component_pairs(g, n):
+    """pairs of references that agree on a prefix of the components (scheme, authority, path, query, fragment), differ in component X in one
+    direction and in a later component Y in the opposite direction: the order must be decided by X in every view"""
+    LOW = {'scheme': 'a', 'authority': 'a.example', 'path': '/a', 'query': 'a', 'fragment': 'a'}
+    HIGH = {'scheme': 'b', 'authority': 'b.example', 'path': '/b', 'query': 'b', 'fragment': 'b'}
+    comps = ['scheme', 'authority', 'path', 'query', 'fragment']
+    out = []
+    for _ in range(n):
+        i = g.r.randrange(0, 4); j = g.r.randrange(i + 1, 5)
+        base = {'scheme': g.pick(['s', 'http']), 'authority': g.pick(['h', 'u@h:80', None]), 'path': g.pick(['/p', '/p/q', '']), 'query': g.pick([None, 'q']), 'fragment': g.pick([None, 'f'])}
+        if base['authority'] is None and base['path'] == '': base['path'] = '/p'
+        p = dict(base); q = dict(base)
+        lo, hi = dict(LOW), dict(HIGH)
+        if g.r.random() < 0.5:      # absent vs present instead of small vs large
+            k = g.pick([comps[i], comps[j]])
+            if k in ('authority', 'query', 'fragment'): lo[k] = None
+        if g.r.random() < 0.3: lo['path'], hi['path'] = '/a/z', '/b'
+        p[comps[i]], q[comps[i]] = lo[comps[i]], hi[comps[i]]
+        p[comps[j]], q[comps[j]] = hi[comps[j]], lo[comps[j]]
+        ok = True
+        for r in (p, q):
+            if r['authority'] is None and r['path'].startswith('//'): ok = False
+            if r['authority'] is not None and r['path'] and not r['path'].startswith('/'): ok = False
+        if ok:
+            out.append((p, q) if g.r.random() < 0.5 else (q, p))
+    return out
